@@ -146,7 +146,8 @@ def generate(consts, work, num, depth, sd, exhaustive=False, workers=2, timeout=
 
 def real_cfg(consts, module, backend, keymap, how='kw', unkey=False, ni=1):
     ms = consts['MAXSIZE']
-    cfg = {'module': module, 'alg': consts['ALG'],
+    _raise7_rot[0] += 1
+    cfg = {'module': module, 'alg': consts['ALG'], 'raise7': RAISE7[_raise7_rot[0] % len(RAISE7)],
            'maxsize': (None if ms == -1 else ms), 'how': how,
            'purge': consts['PURGE'], 'backend': backend, 'keymap': keymap,
            'nx': consts['NX'], 'ni': ni, 'na': 2, 'unkey': unkey}
@@ -203,6 +204,8 @@ def signature(trace, verdict):
            'exc': e.get('exc', 'none')}
     if e['op'] == 'call':
         sig['kind'] = trace['cfg']['kind'][e['a'] - 1]
+        if sig['kind'] == 'raise':
+            sig['raises'] = cfg.get('raise7', 'StubError') if e['a'] == len(trace['cfg']['kind']) - (2 if 'unkey' in trace['cfg']['kind'] else 1) else 'KeyError'
         # which counter this call moved (hit / load / miss), and whether the archive object was replaced earlier on
         prev = (trace['events'][idx - 2] if idx >= 2 else trace['init'])['info'][i - 1]
         now = e['info'][i - 1]
@@ -481,20 +484,26 @@ BOUNDED = ['lfu', 'lru', 'mru', 'rr']
 ALLALG = ['no', 'inf', 'lfu', 'lru', 'mru', 'rr']
 KM_STD = [('str', True, False), ('hash-md5', True, False), ('default',), ('raw', True, False),
           ('pickle', True, False), ('dill', True, True), ('str', False, False), ('str', True, True),
-          ('hash-sha1', False, True), ('pickle-repr', False, False), ('raw', True, True), ('str-repr', True, False)]
+          ('hash-sha1', False, True), ('pickle-repr', False, False), ('raw', True, True), ('str-repr', True, False),
+          ('chain-str-sha1', True, False), ('chain-md5-pickle', True, False)]
+
+
+RAISE7 = ['StubError', 'TypeError', 'ValueError', 'AttributeError', 'OSError', 'RuntimeError', 'IndexError']
+_raise7_rot = [0]
 
 
 def py_cfg(module, alg, maxsize, backend, keymap, purge=False, how='kw', variant='plain', ni=1, unkey=False, nx=4):
+    _raise7_rot[0] += 1
     cfg = {'module': module, 'alg': alg, 'maxsize': maxsize, 'how': how, 'purge': purge, 'backend': backend,
            'keymap': keymap, 'nx': nx, 'ni': ni, 'na': 3 if ni > 1 else 2, 'unkey': unkey, 'variant': variant,
-           'origin': 'python'}
+           'origin': 'python', 'raise7': RAISE7[_raise7_rot[0] % len(RAISE7)]}
     if alg in ('no', 'inf'):
         cfg['maxsize'] = 'default'
     return cfg
 
 
 def compatible(backend, keymap, module):
-    if backend in ('sql',) and keymap[0] in ('raw', 'pickle', 'dill'):
+    if backend in ('sql',) and keymap[0] in ('raw', 'pickle', 'dill', 'chain-md5-pickle'):
         return False
     if backend in ('sql',) and keymap[0] == 'default' and module == 'std':
         return True      # python hash: an int
@@ -543,21 +552,23 @@ def scenario_second_instance(run, nseq, length):
         run.jobs.append((cfg, ops, None))
 
 
-def scenario_clone(run, nseq, length, backends=('plain', 'dictarch', 'file', 'dir', 'file-json')):
+def scenario_clone(run, nseq, length, backends=('plain', 'dictarch', 'file', 'dir', 'file-json', 'dir-json', 'dir-compressed',
+                                                 'dir-proto2', 'file-proto2', 'sql')):
     """C20: dill round trip at a random prefix, then the same continuation on both in lock-step"""
     rng = run.rng
     for _ in range(nseq):
         alg = rng.choice(ALLALG)
         module = rng.choice(['std', 'safe'])
         backend = rng.choice(list(backends))
-        km = rng.choice([('str', True, False), ('hash-md5', True, False), ('raw', True, False), ('default',), ('dill', True, False)])
+        km = rng.choice([('str', True, False), ('hash-md5', True, False), ('raw', True, False), ('default',), ('dill', True, False),
+                         ('chain-str-sha1', True, False), ('chain-md5-pickle', True, True), ('chain-str-sha1', False, True)])
         if module == 'safe' and km[0] == 'raw':
             km = ('str', True, False)
         variant = rng.choice(['plain', 'plain', 'frac', 'ignore_y', 'tol0'])
-        if backend in ('file-json', 'sql') and (km[0] in ('raw', 'dill', 'default') or variant == 'frac'):
+        if backend in ('file-json', 'dir-json', 'sql') and (km[0] in ('raw', 'dill', 'default', 'chain-md5-pickle') or variant == 'frac'):
             km = ('str', True, False)
-        if backend == 'file-json':
-            variant = 'plain' if variant == 'frac' else variant   # (tuples do not survive JSON)
+        if backend in ('file-json', 'dir-json', 'sql'):
+            variant = 'plain' if variant == 'frac' else variant   # (tuples do not survive JSON; the sqlite fallback stores scalars)
         cfg = py_cfg(module, alg, rng.choice([1, 2, 3]), backend, km, purge=rng.random() < 0.25, ni=2, variant=variant)
         independent = backend in ('plain', 'dictarch')
         cfg['lockstep'] = independent and alg != 'rr'
